@@ -13,6 +13,7 @@ CONSTANTS
   PertKinds <- K_Two
   NumSyss <- N_Three
   RrefFlags <- FL_Two
+  Options <- O_Default
   MaxEvals = 2
 INVARIANT TypeOK
 INVARIANT BackwardConstructionIsEquilibrium
